@@ -37,8 +37,38 @@ class Dying:
         return next(self._it)
 
 
+CURRENT = {"sut": None}  # the network the running step is applied to (set by the engine)
+
+
+class LiveSelf:
+    """The network's *own* live view handed to one of its mutators (H.add_edge(H.nodes)): a
+    sized, iterable collection that reads the view of the network under test each time it is
+    traversed -- so a second traversal, or one that happens after the call has started to change
+    the network, sees what the view shows then."""
+
+    def __init__(self, which):
+        self.which = which
+
+    def _view(self):
+        return getattr(CURRENT["sut"], self.which)
+
+    def __iter__(self):
+        return iter(self._view())
+
+    def __len__(self):
+        return len(self._view())
+
+    def __contains__(self, x):
+        return x in self._view()
+
+    def __repr__(self):
+        return f"<live view .{self.which} of the network itself>"
+
+
 def container(values, mtype):
     """Build the members container of the requested python type."""
+    if mtype in ("view_nodes", "view_edges"):
+        return LiveSelf(mtype[5:])
     if mtype == "list":
         return list(values)
     if mtype == "tuple":
